@@ -96,7 +96,7 @@ KERNELS = [
     K("c08::k_time_wrapping_add_span", pre=lambda a: And(time_ok(a), span_time_ok(a, 4)),
       claims=[("Time::wrapping_add(Span) == (t + sum of units) mod 24h exactly",
                lambda a, o: And(o.is_some, time_is(o.some, (tod(a) + span_time_total(a, 4)) % DAY_NS)))],
-      bounds=B_TS),
+      bounds=B_TS, known=[("F2", role_f2(4))]),
     K("c08::k_time_wrapping_sub_span", pre=lambda a: And(time_ok(a), span_time_ok(a, 4)),
       claims=[("Time::wrapping_sub(Span) == (t - sum of units) mod 24h exactly",
                lambda a, o: And(o.is_some, time_is(o.some, (tod(a) - span_time_total(a, 4)) % DAY_NS)))],
